@@ -87,7 +87,7 @@ impl SimSource {
             data,
             plan: w.plan_reads(),
             faults: w.faults.clone(),
-            len_hint: w.len_hint.then(|| w.total_samples()),
+            len_hint: w.len_hint.then(|| (w.total_samples() as i64).saturating_add(w.len_hint_off).max(0) as usize),
             eof_style: w.eof_style,
             pos: 0,
             reads: 0,
